@@ -438,6 +438,9 @@ var funcSpecs = []funcSpec{
 			{"validate", fnOf(pairOf(tText, tErr), tText)}},
 		extFns: map[string]param{"validateYAML": {"validate", fnOf(pairOf(tText, tErr), tText)}}},
 	{pkg: "snaps", name: "trackSkip", sig: "t:testingT->", out: "IO", fx: "st"},
+	{pkg: "snaps", name: "Skip", sig: "t:testingT,args:...any->", out: "IO", fx: "st"},
+	{pkg: "snaps", name: "Skipf", sig: "t:testingT,format:string,args:...any->", out: "IO", fx: "st"},
+	{pkg: "snaps", name: "SkipNow", sig: "t:testingT->", out: "IO", fx: "st"},
 	// the exported entry points (after every flow they delegate to)
 
 	{pkg: "snaps", name: "matchStandaloneJSON", sig: "c:*Config,t:testingT,input:any,matchers:...match.JSONMatcher->", out: "IO", fx: "st",
